@@ -115,8 +115,8 @@ pub fn prop(id: &str) -> Option<Prop> {
         },
         "C11" => Prop {
             id: "C11",
-            views: v(&[View::Premature, View::Mem, View::Weak, View::LibPanic, View::Crash, View::Abort, View::PanicSafe]),
-            rule: "fault injection: proptest-generated SAFE histories with one armed panic per op inside payload destructors, op run under catch_unwind, history continues afterwards; non-trivial = the panic hit a member of a group of >=2 that was not last in destruction order; distinct = distinct script hash",
+            views: v(&[View::Premature, View::Mem, View::Weak, View::LibPanic, View::Crash, View::Abort, View::PanicSafe, View::Table, View::Count]),
+            rule: "fault injection: proptest-generated SAFE histories (a quarter of the workers: CONSUME, a quarter: ELIDE with the known finding excluded) with one armed panic per op inside payload destructors, op run under catch_unwind, history continues afterwards, counts and link tables of everything still held audited after every op; non-trivial = the panic hit a member of a group of >=2 that was not last in destruction order; distinct = distinct script hash",
             quick_cases: 120_000,
             thorough_cases: 2_000_000,
             layouts_quick: 1,
@@ -239,6 +239,13 @@ pub fn gen_cfg(id: &str, tier: Tier, variant: u64) -> GenCfg {
             g
         }
         // peers whose handles were released without unadopt (over-adopted members)
+        // survivors that gave up a recorded handle without unadopt: their tables
+        // must be purged of a dying adoptee even if its destructor panics
+        "C11" if variant % 4 == 2 => {
+            let mut g = GenCfg::new(Mode::Elide, ops);
+            g.weights.remove = 12;
+            g
+        }
         "C16" if variant % 4 == 2 => {
             let mut g = GenCfg::new(Mode::Elide, ops);
             g.weights.remove = 12;
@@ -310,7 +317,7 @@ pub fn gen_cfg(id: &str, tier: Tier, variant: u64) -> GenCfg {
 pub fn world_cfg(id: &str, mode: Mode) -> Cfg {
     Cfg {
         mode,
-        audit_tables: matches!(id, "C08" | "C12" | "C09" | "C13"),
+        audit_tables: matches!(id, "C08" | "C12" | "C09" | "C13" | "C11"),
         audit_leaks: matches!(id, "C04" | "C10" | "C12"),
         cost_checks: id == "C14",
         exclude_known: mode == Mode::Elide && std::env::var_os("CX_NO_KF").is_none(),
